@@ -1,10 +1,10 @@
 #!/bin/bash
-# usage: seedtest.sh <property id> [seed-name]   (development aid)
+# usage: seedtest.sh <property id> [seed-name] [property whose check is run]   (development aid)
 # Confirms a seeded change delivered in /tmp/wt_<id>/seed (patch applies, tests pass with it,
 # demo fails with it and passes without), stores it under /verif/seeded/<name>/ and runs the
 # property's quick check against /repo with the patch applied (reverted afterwards).
 set -u
-id=$1; name=${2:-$1}
+id=$1; name=${2:-$1}; chk=${3:-$1}
 wt=/tmp/wt_$id
 export GOFLAGS=-mod=mod GOPROXY=off GOSUMDB=off GOTOOLCHAIN=local
 out=/verif/seeded/$name
@@ -26,7 +26,7 @@ git -C /repo worktree remove --force $sc
 echo "confirm: existing tests failing with patch=$tests_with (want 0); demo failures with patch=$demo_with (want >0); without=$demo_without (want 0)"
 # run the check against /repo with the patch applied
 git -C /repo apply $out/patch.diff || { echo "cannot apply to /repo"; exit 2; }
-cd /verif && timeout 1500 ./check.sh $id quick > $out/check_quick.log 2>&1; rc=$?
+cd /verif && timeout 1500 ./check.sh $chk quick > $out/check_quick.log 2>&1; rc=$?
 git -C /repo checkout -- . ; git -C /repo status --short | head -3
 echo "check exit=$rc"; grep -c "^VIOLATION" $out/check_quick.log; grep "^VIOLATION\|^  [A-Z-]*: \|SPURIOUS\|INCONCLUSIVE" $out/check_quick.log | cut -c1-300 | head -8
 python3 - "$id" "$name" "$tests_with" "$demo_with" "$demo_without" "$rc" <<'PY'
@@ -36,4 +36,4 @@ json.dump({"property":id,"seed":name,"existing_tests_failing_with_patch":int(tw)
 PY
 cp $wt/seed/README.md $out/README.md 2>/dev/null
 # restore evidence produced on the mutated tree
-cd /verif && git checkout -- evidence/$id.json 2>/dev/null; rm -rf /verif/replays/$id
+cd /verif && git checkout -- evidence/$chk.json 2>/dev/null; rm -rf /verif/replays/$chk
